@@ -31,7 +31,7 @@ MODES = (
     ('hybrid', 'native', None, {'flat_max_words': 3}),
     ('measure', 'native-measure', None, {}),
 )
-KINDS = ('lib', 'eof', 'foreign', 'kbd', 'pending')
+KINDS = ('lib', 'eof', 'foreign', 'foreign-os', 'foreign-eoferror', 'kbd', 'pending')  # foreign: ValueError / BrokenPipeError (an OSError) / the builtin EOFError
 
 
 class _Lib(Exception):
@@ -182,7 +182,7 @@ def run_fault(image, path, answers, k, kind, mode, classes_, probe):
     if kind == 'pending':
         dev = PendingDevice(k)
     else:
-        exc = {'lib': InjectedDeviceError('injected'), 'eof': IOReadOnEOF('injected eof'), 'foreign': ValueError('injected'),
+        exc = {'lib': InjectedDeviceError('injected'), 'eof': IOReadOnEOF('injected eof'), 'foreign': ValueError('injected'), 'foreign-os': BrokenPipeError('injected'), 'foreign-eoferror': EOFError('injected'),
                'kbd': KeyboardInterrupt()}[kind]
         dev = FaultDevice(answers, k, exc)
     obs = {'raised': None, 'same_object': None, 'cause_chained': None}
@@ -241,9 +241,9 @@ def expectation(image, answers, k, kind, mode, base, obs):
 
     if obs['raised'] == 'Watchdog':
         return [('termination', 'stops', 'still running after 20 s')]
-    if kind in ('lib', 'foreign') or (kind == 'eof' and call_kind == 'w'):
+    if kind == 'lib' or kind.startswith('foreign') or (kind == 'eof' and call_kind == 'w'):
         r = R1.run(image, answers, H, stop_after_io=k)
-        if kind == 'foreign':
+        if kind.startswith('foreign'):
             if obs['raised'] != 'FlipJumpRuntimeException' or not obs['cause_chained']:
                 diffs.append(('exception', 'FlipJumpRuntimeException chained from the device exception', (obs['raised'], obs['cause_chained'])))
         else:
